@@ -61,7 +61,10 @@ fn evict_case<const SHAPE: u8>() {
     };
     assert!(out == expect, "eviction rule");
     let wakes = usize::from(s0.wake_by_ref) + usize::from(s0.clone_wake);
-    assert!(hooks::ready_len(&cmd) == wakes, "each wake re-queues the task once");
+    // woken <=> queued to run again (how many times a doubly-woken task is queued is not part of
+    // the property: de-duplicating wake-ups would be a legitimate change)
+    let queued = hooks::ready_len(&cmd);
+    assert!((queued > 0) == (wakes > 0) && queued <= wakes, "a task is queued to run again iff it was woken");
     assert!(hooks::effects_len(&cmd) == usize::from(s0.effect), "effect emitted once");
     assert!(hooks::events_len(&cmd) == usize::from(s0.event), "event emitted once");
     // run_task itself never removes the task
@@ -218,12 +221,24 @@ fn kept_alive_case<const B: u8>() {
         assert!(pa.dropped(), "A finished");
     } else {
         assert!(pa.polls() == 1, "A not polled without a wake");
-        assert!(!pa.dropped(), "A was not discarded behind its back");
-        assert!(hooks::has_task(&cmd, 0));
+        if !b_drops {
+            // A's waker is still parked with its other owner: A can be woken, so it must be there
+            assert!(!pa.dropped(), "A was not discarded behind its back");
+            assert!(hooks::has_task(&cmd, 0), "A still in the command");
+        }
+        // (if B dropped A's waker without waking it, nothing can wake A any more: whether the
+        // executor notices and discards A, or keeps it, is not constrained here)
     }
-    let live = usize::from(!b_wakes) + usize::from(!b_finishes);
-    assert!(hooks::live_tasks(&cmd) == live, "live tasks after second settle");
-    assert!(cmd.is_done() == (live == 0), "done <=> nothing left");
+    let live_now = hooks::live_tasks(&cmd);
+    let live_b = usize::from(!b_finishes);
+    if b_wakes {
+        assert!(live_now == live_b, "live tasks after second settle");
+    } else if !b_drops {
+        assert!(live_now == live_b + 1, "live tasks after second settle");
+    } else {
+        assert!(live_now == live_b || live_now == live_b + 1, "live tasks after second settle");
+    }
+    assert!(cmd.is_done() == (live_now == 0), "done <=> nothing left");
 
     nd_cover!(b_wakes && b_finishes, "B woke A and finished: command done");
     nd_cover!(!b_wakes && !b_drops && b_finishes, "B finished, A still parked");
